@@ -138,22 +138,35 @@ def _save_ast(cls):
         try:
             if "save" in cls.__dict__:
                 fn = ast.parse(textwrap.dedent(inspect.getsource(cls.__dict__["save"]))).body[0]
-                chk = None
-                if "check_required" in cls.__dict__:
-                    chk = ast.parse(textwrap.dedent(inspect.getsource(cls.__dict__["check_required"]))).body[0]
-                res = (fn, chk)
+                res = fn
         except (OSError, TypeError, SyntaxError):
             res = None
         _SAVE_CACHE[cls] = res
     return _SAVE_CACHE[cls]
 
 
+_CHK_CACHE = {}
+def _check_required_ast(tp):
+    if tp not in _CHK_CACHE:
+        res = None
+        for k in tp.__mro__:
+            if "check_required" in k.__dict__:
+                try: res = ast.parse(textwrap.dedent(inspect.getsource(k.__dict__["check_required"]))).body[0]
+                except (OSError, TypeError, SyntaxError): res = False
+                break
+        _CHK_CACHE[tp] = res
+    return _CHK_CACHE[tp]
+
+
 def struct_fields(cls, inst, settings):
     """[(attribute, slot, required)] in the order `cls.save` writes them under these settings, or None when `save`
     does not have the generated shape (the structure is then treated as one opaque position)"""
-    got = _save_ast(cls)
-    if got is None: return None
-    fn, chk = got
+    fn = _save_ast(cls)
+    if fn is None: return None
+    # `save` calls `self.check_required(...)`: that is the check_required of the value's OWN class (the most derived
+    # one that defines it), also while a base class's `save` runs — a base class's required attributes are therefore
+    # not tested on instances of a subclass that defines its own check_required
+    chk = _check_required_ast(type(inst))
     version = cls.max_version(inst, settings) if settings["nex.struct_header"] else 0
     mod = inspect.getmodule(cls).__dict__
     env = {"stream": _Stream(settings), "settings": settings, "version": version, "self": inst}
@@ -182,6 +195,7 @@ def struct_fields(cls, inst, settings):
                     continue
             raise Unknown("save: " + ast.unparse(st))
     try:
+        if chk is False: return None
         if chk is not None: walk_required(chk.body)
         walk(fn.body)
     except Unknown:
